@@ -63,7 +63,7 @@ class FeatureTransformerNoise:
             pass
 
         if len(new_columns) > 0:
-            tmp_df = pd.DataFrame(new_columns)
+            tmp_df = pd.DataFrame(new_columns, index=dataframe.index)
             dataframe = pd.concat([dataframe, tmp_df], axis=1)
             del tmp_df
 
@@ -153,7 +153,7 @@ class FeatureTransformerGeneric:
                     invalid_transforms += 1
 
         if len(new_columns) > 0:
-            tmp_df = pd.DataFrame(new_columns)
+            tmp_df = pd.DataFrame(new_columns, index=dataframe.index)
             dataframe = pd.concat([dataframe, tmp_df], axis=1)
             del tmp_df
 
